@@ -7,9 +7,9 @@ patch="$1"; tier="$2"; shift 2
 tmp=$(mktemp -d "${TMPDIR:-/tmp}/vf-mut-XXXXXX")
 trap 'rm -rf "$tmp"' EXIT
 if [ -n "$VF_BASE" ]; then
-  git -C /repo archive "$VF_BASE" src | tar -x -C "$tmp"
+  git -C /repo archive "$VF_BASE" src docs | tar -x -C "$tmp"
 else
-  cp -r /repo/src "$tmp/src"
+  cp -r /repo/src "$tmp/src"; cp -r /repo/docs "$tmp/docs"
 fi
 find "$tmp" -name __pycache__ -prune -exec rm -rf {} + 2>/dev/null || true
 if [ "$patch" != "-" ]; then
